@@ -88,7 +88,7 @@ def check(ctx):
     if getattr(ctx, "selftest", False):
         return selftest(ctx)
     quick = ctx.tier == "quick"
-    allc = [1, 2, 3, 4, 5]
+    allc = [1, 2, 3, 4, 5, 8]
     B = ["plain", "sub", "stop", "dup"]   # SubOpts: the script works in $WORK / after `cd sub` with every entry under sub/ / ends with a `stop` line
     # (MaxSlots, KindMode, Cs, ArchG, ByOpts, driver stride, walks per worker, SubOpts); bounds fitted to measured counts, see REGISTRY.
     # walks = 0: TLC explores every state; walks > 0: seeded random walks (-simulate, SIM_WORKERS workers) through a slot
@@ -96,7 +96,7 @@ def check(ctx):
     # walk (measured: 6 walks x 3 steps x 135 core slots = 2,430 scripts; 32 walks x 3 x 255 full slots = 24,480)
     if quick:
         runs = [(1, "full", allc, [1, 2, 6], [True, False], 1, 0, B),
-                (2, "core", [2, 4, 5], [2, 6], [True], 1, 0, B),
+                (2, "core", [2, 4, 5], [2, 6], [True], 1, 0, ["plain", "sub"]),   # (the other variants: runs 1 and 3)
                 (3, "core", allc, [1, 2, 6], [True, False], 1, 2, B)]
     else:
         runs = [(1, "full", allc, [1, 2, 6], [True, False], 1, 0, B),
